@@ -342,6 +342,27 @@ def check_c07_bound(root, k, tap, report, counts):
                                                f"decoding steps from the input ({nreg} registry entries)")
 
 
+def check_c07_internal(k, tap, report, counts):
+    """Decoder functions applied from inside a decoder call (module-level tap): such an application is not made by the
+    engine and has no depth budget of its own. On the text being searched (or a piece of it) it belongs to the same step;
+    on any other value it is one decoding step further per nesting level and needs remaining depth for it."""
+    counts["c07_internal_tap_scans"] = counts.get("c07_internal_tap_scans", 0) + 1
+    for ic in tap.internal:
+        counts["c07_internal_decoder_applications"] = counts.get("c07_internal_decoder_applications", 0) + 1
+        outer = bytes(ic.outer_data)
+        if bytes(ic.data) in outer:
+            counts["c07_internal_on_same_text"] = counts.get("c07_internal_on_same_text", 0) + 1
+            continue
+        if ic.act is None:
+            continue
+        remaining = ic.act.depth_limit  # the searched value is k - remaining steps away; a value derived from it one more per level
+        if remaining - ic.nesting < 1:
+            report("depth:decoder-applied-inside-a-decoder-beyond-limit",
+                   f"{ic.name} was applied, from inside a decoder call, to a value that is not part of the searched text "
+                   f"({bytes(ic.data)[:40]!r}, nesting {ic.nesting}) while the searched value had only {remaining} step(s) of the limit {k} left")
+            return
+
+
 def canon_without(node, removed):
     kids = tuple(canon_without(c, removed) for c in node.children if id(c) not in removed)
     return (node.type, bytes(node.value), node.obfuscation, node.start, node.end, kids)
